@@ -47,7 +47,9 @@ func ApplyUpdate(orig, update *unstructured.Unstructured) (*unstructured.Unstruc
 		return nil, err
 	}
 
-	// prevent setting last applied values in the new object
+	// prevent setting last applied values in the new object; the caller's
+	// object is left as it is (it may be applied or compared again later)
+	update = update.DeepCopy()
 	nullifyLastAppliedAnnotation(update)
 
 	newObj := &unstructured.Unstructured{}
